@@ -221,15 +221,15 @@ def client_read(obj):
 # ---------------------------------------------------------------------------------------------------
 # cells of sequence records
 def cell_forms(rng, ty, v, int8=False):
-    """[(label, python object, model cell)] — the forms a record of an IterData source can hold value v in"""
+    """[(label, python object, model cell, big-endian?)] — the forms a record of an IterData source can hold value v in"""
     out = []
     if ty == "String":
         s = v.decode("ascii")
         cps = "(u%s)" % "".join(" %d" % c for c in v)
-        out.append(("str", s, cps))
-        out.append(("np.str_", np.str_(s), cps))
-        out.append(("np.bytes_", np.bytes_(v), cps))       # iterdata() decodes a numpy.bytes_ to str
-        out.append(("bytes", bytes(v), "(b %s)" % hexb(v)))
+        out.append(("str", s, cps, 0))
+        out.append(("np.str_", np.str_(s), cps, 0))
+        out.append(("np.bytes_", np.bytes_(v), cps, 0))       # iterdata() decodes a numpy.bytes_ to str
+        out.append(("bytes", bytes(v), "(b %s)" % hexb(v), 0))
         return out
     for c in chars_for(ty, [v]):
         if int8 and c != "b":
@@ -238,15 +238,15 @@ def cell_forms(rng, ty, v, int8=False):
             if order == ">" and c in "Bb?":
                 continue
             a = logical(ty, (), [v], c, order)
-            out.append(("0d:%s%s" % (order, c), a, "(n %s %d)" % (c, v)))
+            out.append(("0d:%s%s" % (order, c), a, "(n %s %d)" % (c, v), int(order == ">")))
             if order == "<":
-                out.append(("np:%s" % c, a[()], "(n %s %d)" % (c, v)))
+                out.append(("np:%s" % c, a[()], "(n %s %d)" % (c, v), 0))
         if c == "l":
-            out.append(("int", int(v), "(n l %d)" % v))
+            out.append(("int", int(v), "(n l %d)" % v, 0))
         if c == "?":
-            out.append(("bool", bool(v), "(n ? %d)" % v))
+            out.append(("bool", bool(v), "(n ? %d)" % v, 0))
         if c == "d":
             f = float(logical(ty, (), [v], c, "<")[()])
             if struct.pack("<d", f) == struct.pack("<Q", v):
-                out.append(("float", f, "(n d %d)" % v))
+                out.append(("float", f, "(n d %d)" % v, 0))
     return out
